@@ -604,6 +604,20 @@ def mon_C09(st):
             if po["z"] and not (pi in gac_done and gac_done[pi] <= j):
                 out.append(("closed-though-no-gather-and-close-returned", j, f"pool {pi}"))
                 break
+    # a rejected map-style request does not touch its iterable — not even `iter()` on it; an accepted one starts
+    # iterating in its spawner, not in the caller (harness count of `__iter__` calls on a re-iterable argument)
+    seen_iter = {}
+    for j, toks in enumerate(st.toks):
+        o, ex = st.obs[j], st.extras[j]
+        if o is None or not ex:
+            continue
+        for pi, e in enumerate(ex):
+            for (call_no, in_call) in (e or {}).get("iters", ()):
+                if in_call and o["r"].startswith("err:"):
+                    out.append(("rejected-request-touched-the-iterable", j, f"pool {pi}: __iter__ called during a request answered {o['r']}"))
+                seen_iter[(pi, call_no)] = seen_iter.get((pi, call_no), 0) + 1
+                if seen_iter[(pi, call_no)] == 2:
+                    out.append(("iterable-started-twice", j, f"pool {pi}: __iter__ called a second time on the iterable of one request"))
     # an explicit group name that is still in use is refused, whatever the name (hook-free pools)
     for pi, ps in enumerate(st.pools):
         if ps.has_hooks:
